@@ -199,6 +199,21 @@ CLAIMED = {
         'technique': 'Lean 4 proof over tables regenerated from the source + differential execution in four modes',
         'design_ref': '§5 C18',
     },
+    'C06': {
+        'text': ('PARTIAL (solver convergence).  Lean theorems: which function `inverse` resolves to for every class is '
+                 're-checked against the source table; the form model gives A.I.I = A for every lazy-inverse wrapper and '
+                 'closed form, refuses non-square operators, inverts block-diagonals block by block and falls back to the lazy '
+                 'inverse otherwise; the semantic laws of each closed form are theorems on the kernel models: non-zero scalar '
+                 '(field), diagonal Moore-Penrose pseudo-inverse without division by zero, QU rotation RᵀR = I, move-axis '
+                 'round trip, block-wise products.  The form of .I and .I.I is compared with the implementation; A.I(A x) = x = '
+                 'A(A.I x), Moore-Penrose identities, NaN/Inf scan, as_matrix of inverses and SPD solves under two solver '
+                 'settings are checked on the implementation.'),
+        'note': ('PARTIAL: "A.I(y) solves A z = y to the configured tolerance" is numerical convergence of lineax CG (A4), '
+                 'checked differentially on SPD operators with condition number ≤ 100. Trusted: Lean kernel + Mathlib + '
+                 'standard axioms; translator/encoder.'),
+        'technique': 'Lean 4 proof (form model + kernel laws) + differential correspondence; solver differential',
+        'design_ref': '§5 C06',
+    },
     'C10': {
         'text': ('Lean theorems on flattened pytrees (FuraxModel/BlockSem.lean): the block-diagonal, block-column and block-row '
                  'maps satisfy the algebra behind the four product rules for any number of blocks incl. one '
